@@ -119,6 +119,9 @@ pub struct Scn {
     pub files: BTreeMap<String, String>,
     pub dirs: Vec<String>,
     pub invs: Vec<Inv>,
+    /// Some(name) for the hand-written reproductions of known findings (see c20::directed_cases)
+    #[serde(default)]
+    pub directed: Option<String>,
 }
 
 pub const PROJ: &str = "proj";
@@ -424,5 +427,5 @@ pub fn gen_scn(d: &Data, r: &mut Rng, faulty: bool, bad: Option<&str>) -> Scn {
             recover: false,
         });
     }
-    Scn { project, files, dirs, invs }
+    Scn { project, files, dirs, invs, directed: None }
 }
